@@ -817,6 +817,9 @@ snapshot are both read before it), `index.kvstore.{regexp,like}.afterSnapshot`,
 `index.inverted.afterSnapshot`, `index.forward.afterSnapshot` -/
 inductive ParkPoint
   | dictFind | dictScan | inverted | forward
+  -- the other snapshot+memory readers: `GetValues`, `CollectKVs`, `Suggest` (dictionary),
+  -- `invertedIndex.getSeriesIDs`, `forwardIndex.GetGroupingContext`
+  | values | collect | suggest | invGet | grouping
   deriving DecidableEq, Repr
 
 /-- per read path: are the memory tables read BEFORE the file snapshot is taken -/
@@ -824,6 +827,11 @@ structure ReadOrder where
   dictScanMemFirst : Bool
   invMemFirst : Bool
   fwdMemFirst : Bool
+  valuesMemFirst : Bool := true
+  collectMemFirst : Bool := true
+  suggestMemFirst : Bool := true
+  invGetMemFirst : Bool := true
+  groupingMemFirst : Bool := true
   deriving DecidableEq, Repr
 
 def hybridDict (memFirst : Bool) (d1 d2 : Dict) : Dict :=
@@ -843,6 +851,11 @@ def ReadOrder.memFirstAt (ro : ReadOrder) : ParkPoint → Bool
   | .dictScan => ro.dictScanMemFirst
   | .inverted => ro.invMemFirst
   | .forward => ro.fwdMemFirst
+  | .values => ro.valuesMemFirst
+  | .collect => ro.collectMemFirst
+  | .suggest => ro.suggestMemFirst
+  | .invGet => ro.invGetMemFirst
+  | .grouping => ro.groupingMemFirst
 
 /-- the state observed by a single-read query parked at `pt` from `s1` to `s2` (all its other reads
 happen entirely at one instant; under the invariant they do not depend on which) -/
@@ -852,6 +865,26 @@ def parkedState (ro : ReadOrder) (pt : ParkPoint) (s1 s2 : State) : State :=
   | .dictScan => { s2 with dict := hybridDict ro.dictScanMemFirst s1.dict s2.dict }
   | .inverted => { s2 with inv := hybridInv ro.invMemFirst s1.inv s2.inv }
   | .forward => { s2 with fwd := hybridFwd ro.fwdMemFirst s1.fwd s2.fwd }
+  | .values => { s2 with dict := hybridDict ro.valuesMemFirst s1.dict s2.dict }
+  | .collect => { s2 with dict := hybridDict ro.collectMemFirst s1.dict s2.dict }
+  | .suggest => { s2 with dict := hybridDict ro.suggestMemFirst s1.dict s2.dict }
+  | .invGet => { s2 with inv := hybridInv ro.invGetMemFirst s1.inv s2.inv }
+  | .grouping => { s2 with fwd := hybridFwd ro.groupingMemFirst s1.fwd s2.fwd }
+
+/-- `GetValues` (`FindTagValueIDsForTag`): every value id of a bucket — the snapshot's bucket, then the
+memory tables -/
+def Dict.values (d : Dict) (kid : KeyId) : List ValId :=
+  ((d.files.flatten ++ d.mtb ++ optList d.imm).filter (fun e => e.1 == kid)).map (·.2.2)
+
+/-- a leaf query whose selection ran on `sSel` and whose group-by part (grouping context / value
+strings) observed `sGrp` (a parked `GetGroupingContext` or `CollectKVs`) -/
+def leafQuerySplit (F : Flags) (M : Matcher) (sSel sGrp : State) (m : Metric) (keys : List Bytes) (c : Expr) :
+    Except Err LeafResult :=
+  match leafQuery F M sSel m keys c with
+  | .error e => .error e
+  | .ok r =>
+    if keys.isEmpty then .ok r
+    else .ok { series := r.series, groups := some (groupBy F sGrp m keys r.series) }
 
 end LinVerif.TagFilter
 
